@@ -139,6 +139,15 @@ def run(chk):
                 c = a[2][0]
                 if c[0] == "wl":
                     fo_name = c[1]
+                # how close is close: the library's own tolerance, not numpy's default of 1e-5 relative (10 cents on 10,000 spent)
+                kw = dict(a[3])
+                rel = kw.get("rtol" if a[1] == "np.isclose" else "rel_tol")
+                absl = kw.get("atol" if a[1] == "np.isclose" else "abs_tol")
+                relv = sym.to_rat(rel).const_value() if rel is not None else (None if a[1] == "np.isclose" else 1e-9)
+                absv = sym.to_rat(absl).const_value() if absl is not None else (1e-8 if a[1] == "np.isclose" else 0)
+                okt = relv is not None and float(relv) <= 1e-9 and absv is not None and float(absv) <= 1e-8
+                chk.ob("C05.R6", okt, CORE, host, "loop-test-tolerance", "the search stops only when the cost meets the amount to within the library's (tiny) tolerance", where=fi.where,
+                       expected="relative tolerance <= 1e-9 (TOL), absolute tolerance <= 1e-8", found="rtol=%s atol=%s" % (short(rel) if rel is not None else "default", short(absl) if absl is not None else "default"))
     if fo_name and cur_probe:
         fo_new = body.locals.get(fo_name)
         ok = fo_new is not None and fo_new[0] == "item" and fo_new[1] == cur_probe[-1].result and fo_new[2] == 0
